@@ -65,7 +65,7 @@ def one_case(args):
         s = gen.generate(rng.getrandbits(40), target_packets=rng.choice([None, None, 100, 200, 101]) if rng.random() < 0.3 else None)
         data = s.serialize()
         pk = s.all_packets()
-        pkts = [(dict(p.f, offset_to_next=0), len(p.payload(s.fmt))) for p in pk]
+        pkts = [(p.full, len(p.payload(s.fmt))) for p in pk]
         flags = [fl for fr in s.frames for fl in fr["flags"]]
         frames_truth = (s, flags)
     else:
